@@ -152,12 +152,13 @@ SP_MACROS = VIEW_MACROS + [
     Macro("ref", [], "self._reference_continuum"),
     Macro("inside", ["u", "v"], "v.haslab == u.haslab and v.lab == u.lab and u.s <= v.s and v.e <= u.e"),
     Macro("piece_of_old", ["a", "v"], "exists([(u, Unit)], U0[a][u] and inside(u, v))"),
+    Macro("U_before_pop", ["a", "u"], "UP[a][u] and piece_of_old(a, u) and u.e - u.s > 1e-6"),
 ]
 contract(F + "CorpusShufflingTool.splits_shuffle",
          params={"self": CST(), "continuum": CONT()}, modifies=["continuum"], macros=SP_MACROS,
-         ghost_vars={"U0": ("RUSet", None)},
+         ghost_vars={"U0": ("RUSet", None), "UP": ("RUSet", None)},
          requires=["RI(continuum)", "not same_obj(continuum, self._reference_continuum)", "RI(ref())", "Nkeys(ref()) >= 1",
-                   "forall(k, 0, Nkeys(continuum), Cnt(continuum)[Kseq(continuum)[k]] >= 1)", "self.SPLIT_FACTOR == 2.5"],
+                   "forall([(a, Real)], implies(Ann(continuum)[a], exists([(u, Unit)], Us(continuum)[a][u])))", "self.SPLIT_FACTOR == 2.5"],
          raises={"ValueError": {}},
          ensures=[cl("Ann(continuum) == old(Ann(continuum))", "C19", name="same-annotators"),
                   cl("forall([(a, Real), (v, Unit)], implies(Us(continuum)[a][v], exists([(u, Unit)], old(Us(continuum))[a][u] and inside(u, v))))",
@@ -166,11 +167,15 @@ contract(F + "CorpusShufflingTool.splits_shuffle",
          loops={"L0": dict(match="for _ in range(int(self.magnitude * self.SPLIT_FACTOR * ...", modifies=["continuum"],
                            inv=["Ann(continuum) == old(Ann(continuum))", "RI(continuum)",
                                 "forall([(a, Real), (v, Unit)], implies(Us(continuum)[a][v], piece_of_old(a, v)))",
-                                "forall(k, 0, Nkeys(continuum), Cnt(continuum)[Kseq(continuum)[k]] >= 1)"]),
+                                "forall([(a, Real)], implies(Ann(continuum)[a], exists([(u, Unit)], Us(continuum)[a][u])))"]),
                 "L0.0": dict(match="for annotator in continuum.annotators", index="kA", modifies=["continuum"],
                              inv=["Ann(continuum) == old(Ann(continuum))", "RI(continuum)",
                                   "forall([(a, Real), (v, Unit)], implies(Us(continuum)[a][v], piece_of_old(a, v)))",
-                                  "forall(k, 0, Nkeys(continuum), Cnt(continuum)[Kseq(continuum)[k]] >= 1)"])},
+                                  "forall([(a, Real)], implies(Ann(continuum)[a], exists([(u, Unit)], Us(continuum)[a][u])))"])},
          hooks=[("before", "@entry", "U0 = Us(continuum)"),
-                ("before", "@entry", "model_inv wfmap(continuum)")],
+                ("before", "@entry", "model_inv wfmap(continuum)"),
+                ("before", "units = ...", "model_inv wfmap(continuum)"),
+                ("before", "units = ...", "assert Ann(continuum)[annotator] and Cnt(continuum)[annotator] >= 1"),
+                ("after", "to_split = ...", "assert U_before_pop(annotator, to_split)"),
+                ("before", "to_split = ...", "UP = Us(continuum)")],
          serves={"C19"})
